@@ -601,6 +601,35 @@ def check_alias_kw(tcls, cls_name, mode="ctx"):
     return ("ok", None)
 
 
+def check_cte_reference_alias(cls_name, where, mode="ctx"):
+    """a reference to a CTE (AliasedQuery) given its own alias with as_(): FROM / JOIN define that alias exactly once, right after the CTE's name"""
+    import pypika_tortoise as P
+
+    Q = prog.query_cls(cls_name)
+    t = P.Table("t")
+    c = P.AliasedQuery("c")
+    p_ = P.AliasedQuery("c").as_(ALIAS)
+    body = Q.from_(t).select(t.id, t.parent)
+    try:
+        if where == "join":
+            q = Q.with_(body, "c").from_(c).join(p_).on(c.parent == p_.id).select(c.id, p_.id)
+        else:
+            q = Q.with_(body, "c").from_(p_).select(p_.id)
+        sql = render(q, cls_name, mode)
+    except Exception as e:
+        return [(mksig("AliasedQuery", where, "raises:" + type(e).__name__), repr(e))]
+    text = sql if isinstance(sql, str) else sql[0]
+    toks = lex.lex(text, cls_name)
+    defs = [i for i, tk in enumerate(toks) if tk.kind == "qid" and tk.value == ALIAS and not (i + 1 < len(toks) and toks[i + 1].text == ".")]
+    uses = [i for i, tk in enumerate(toks) if tk.kind == "qid" and tk.value == ALIAS and i + 1 < len(toks) and toks[i + 1].text == "."]
+    if uses and len(defs) != 1:
+        return [(mksig("AliasedQuery", where, "dropped" if not defs else "duplicated"), "the alias of a CTE reference qualifies %d columns but is defined %d times: %r" % (len(uses), len(defs), text))]
+    name_at = lambda k: toks[k].text.strip('"`') == "c"  # noqa: E731 - the CTE's name, written bare (known C07 finding) or quoted
+    if defs and not (name_at(defs[0] - 1) or (toks[defs[0] - 1].kind == "word" and toks[defs[0] - 1].value == "AS" and name_at(defs[0] - 2))):
+        return [(mksig("AliasedQuery", where, "misplaced"), "the alias does not follow the CTE's name: %r" % text)]
+    return []
+
+
 def check_customfn_alias(cls_name, mode="ctx"):
     import pypika_tortoise as P
 
@@ -670,6 +699,8 @@ def find_class(name):
 def check_case(case):
     if case.get("family") == "customfn_alias":
         return check_customfn_alias(case["cls"], case.get("mode", "ctx"))
+    if case.get("family") == "cte_ref_alias":
+        return check_cte_reference_alias(case["cls"], case["where"], case.get("mode", "ctx"))
     tcls = find_class(case["term"])
     if case.get("family") == "reuse":
         r = check_reuse(tcls, case["cls"], case["clause"], case.get("mode", "ctx"))
@@ -690,7 +721,7 @@ def check_case(case):
 
 def valid_case(case):
     try:
-        if case.get("family") == "customfn_alias":
+        if case.get("family") in ("customfn_alias", "cte_ref_alias"):
             return case["cls"] in CTXS
         find_class(case["term"])
         return case["cls"] in CTXS
@@ -759,6 +790,12 @@ def run_shard(shard):
             col.case(case, True, classes=("alias_kw",))
             if r[0] == "viol":
                 col.violation(sig_of(tcls, "alias_kw", r[1], cls_name), case, r[2])
+    for where in ("from", "join"):
+        for mode in ("ctx", "par", "str"):
+            case = {"family": "cte_ref_alias", "cls": cls_name, "where": where, "mode": mode}
+            col.case(case, True, classes=("cte_ref_alias",))
+            for sig, detail in check_cte_reference_alias(cls_name, where, mode):
+                col.violation(sig, case, detail)
     # a user-declared function (CustomFunction is a factory, not a Term class): alias= of the call is what as_() gives
     import pypika_tortoise as P
     for mode in ("ctx", "par"):
